@@ -122,6 +122,7 @@ def run(P: Program, R: Report, tier: str) -> None:
         "and an id-truthiness lint over the exporters."
     )
     R.decides += ["writers and readers of the three formats agree on their key tables and axis order; loaded track ids are kept, not renumbered"]
+    R.decides += ['columns are combined by promotion and integer ids are not renumbered on the way back in (shared R12.10 / R12.13)']
     R.not_decided += ["value equality, dtype round trips, GEFF / zarr / pandas internals"]
     tracks = P.class_named("Tracks")
     tinit = tracks.methods["__init__"]
